@@ -83,7 +83,9 @@ pub fn generate(out: &mut Out, prop: &str, thorough: bool, seed: u64) {
         "C14" => {
             server::gen_c14(out, &mut rng, thorough);
             server::gen_c14_noise_bursts(out, &mut rng, thorough);
-            netgen::gen_c14_accept(out, &mut rng, thorough)
+            netgen::gen_c14_accept(out, &mut rng, thorough);
+            // the serial RTU server's loop: a reply that cannot be written ends it with that error
+            netgen::gen_serial_server(out, &mut rng, if thorough { 120 } else { 12 })
         }
         "C15" => {
             client::gen_c15(out, &mut rng, thorough);
@@ -218,7 +220,8 @@ fn judge(out: &mut Out, l: &str, r: &str) {
         "C13" => client::mon_c13(out, &l, &r),
         "C14" => {
             server::mon_c14(out, &l, &r);
-            netgen::mon_c14_accept(out, &l, &r)
+            netgen::mon_c14_accept(out, &l, &r);
+            netgen::mon_c18(out, &l, &r)
         }
         "C15" => client::mon_c15(out, &l, &r),
         "C16" => {
